@@ -207,11 +207,21 @@ func runC03(c *Ctx) {
 		}
 		c.Check(bad == "", "C03.R2", shortFn(ptr)+": escape -> inner-pipe escape -> expansion", ptr.Pos(), "containment of the data-flow stages in the result expression", bad)
 
-		// R3 partition
-		for _, p := range pipes {
+		// R3 partition, on every case of the selections nested in the result (anchor length chosen
+		// by a condition, ...)
+		for _, resv := range u.CaseSplit(res) {
+		var pipesV []*E
+		for _, r := range u.Collect(resv, isCall("strings.ReplaceAll")) {
+			from, _ := r.Args[1].StrVal()
+			to, _ := r.Args[2].StrVal()
+			if from == K["MaskPipe"] && to == `\`+K["MaskPipe"] {
+				pipesV = append(pipesV, r)
+			}
+		}
+		for _, p := range pipesV {
 			// parent: (slice(X,nil,P) + p) + slice(X,L-1,nil), p = ReplaceAll(slice(X,P,L-1),...)
 			var parent *E
-			for _, x := range u.Collect(res, func(x *E) bool {
+			for _, x := range u.Collect(resv, func(x *E) bool {
 				return x.Op == "bin" && x.Aux == "+" && x.Args[0].Op == "bin" && x.Args[0].Aux == "+" && x.Args[0].Args[1] == p
 			}) {
 				parent = x
@@ -270,6 +280,7 @@ func runC03(c *Ctx) {
 				}
 			}
 			c.Check(badp == "", "C03.R3", key, ptr.Pos(), "regex[:P] + ReplaceAll(regex[P:len-1], \"|\", \"\\|\") + regex[len-1:]", badp)
+		}
 		}
 		// the || branch must use P=2, the other P=1: check via the guarding HasPrefix
 		// anchors (R4)
